@@ -1523,3 +1523,71 @@ func checkUpdateRunsAllPhases(c *Ctx, rule string) {
 		"in update mode no success return precedes the republication of the source bundle's metadata",
 		"unpackDataFiles can return success in update mode (destination bundle given) before republishing the source bundle's metadata")
 }
+
+// checkReadAtOffsetWithinLeaf (C01, C17): ReadAt slices the leaf it obtained at the within-leaf offset derived from the
+// caller's file offset. The last leaf is partial, so that offset can exceed its length (any read past the end of the
+// object that still falls inside the last leaf's index range): the slice must be guarded by a comparison of the offset
+// with the leaf's length, otherwise the process serving the mount panics.
+func checkReadAtOffsetWithinLeaf(c *Ctx, rule string) {
+	p := c.P
+	f := p.Func("pkg/cafs.chunkReader.ReadAt")
+	info := f.Info()
+	n := 0
+	ast.Inspect(f.Decl.Body, func(nd ast.Node) bool {
+		se, ok := nd.(*ast.SliceExpr)
+		if !ok || se.Low == nil || se.High != nil {
+			return true
+		}
+		// a leaf's bytes: buffer.Bytes()[offset:] or a variable bound to it
+		base := describeExprAt(f, se.X)
+		if !strings.HasSuffix(base, ".Bytes()") {
+			return true
+		}
+		low, ok := ast.Unparen(se.Low).(*ast.Ident)
+		if !ok {
+			return true
+		}
+		lv, _ := info.Uses[low].(*types.Var)
+		n++
+		guarded := false
+		for x := f.parentOf(se); x != nil; x = f.parentOf(x) {
+			ifs, ok := x.(*ast.IfStmt)
+			if !ok || !encloses(ifs.Body, se.Pos()) {
+				continue
+			}
+			for _, cj := range conjuncts(ifs.Cond) {
+				be, ok := ast.Unparen(cj).(*ast.BinaryExpr)
+				if !ok {
+					continue
+				}
+				strip := func(e ast.Expr) ast.Expr {
+					e = ast.Unparen(e)
+					if cv, ok := e.(*ast.CallExpr); ok && len(cv.Args) == 1 {
+						if tv, ok := info.Types[cv.Fun]; ok && tv.IsType() {
+							return ast.Unparen(cv.Args[0])
+						}
+					}
+					return e
+				}
+				x0, y0 := strip(be.X), strip(be.Y)
+				isLen := func(e ast.Expr) bool {
+					call, ok := e.(*ast.CallExpr)
+					return ok && calleeID(info, call) == "builtin.len" && len(call.Args) == 1 && describeExprAt(f, call.Args[0]) == base
+				}
+				if (be.Op == token.LSS || be.Op == token.LEQ) && isVar(info, x0, lv) && isLen(y0) {
+					guarded = true
+				}
+				if (be.Op == token.GTR || be.Op == token.GEQ) && isLen(x0) && isVar(info, y0, lv) {
+					guarded = true
+				}
+			}
+		}
+		c.check(guarded, rule, f.ID+":leaf-slice#"+itoa(n), p.Pos(se.Pos()),
+			"the within-leaf offset is compared with the leaf's length before the leaf is sliced",
+			"ReadAt slices the leaf at the within-leaf offset without comparing it with the leaf's length: a read at an offset past the end of the object that still falls in the last (partial) leaf panics with slice bounds out of range")
+		return true
+	})
+	if n == 0 {
+		c.softUndecided("%s: chunkReader.ReadAt no longer slices a leaf buffer at a within-leaf offset", rule)
+	}
+}
